@@ -236,6 +236,7 @@ CHECKS = {
              "C05's second part in package run.",
         note="the small-buffer composition repeats the 25 lines of sendPSyncCmd in the harness (sizes are constants in the tool); the production composition itself is run on a subset",
         rule="execution = (framing, RDB size, tail, bufio size, consumer mode, cut set); states = distinct executions; transitions = segments delivered; non-trivial = executions with at least one cut",
-        parts=[dict(pkg="./redis-shake/dbSync", harness=["dbsync"], test="^TestVerif_C05$", shards=16, gomaxprocs=2, budget=dict(quick=75, thorough=1200))],
+        parts=[dict(pkg="./redis-shake/dbSync", harness=["dbsync"], test="^TestVerif_C05$", shards=16, gomaxprocs=2, budget=dict(quick=75, thorough=1200)),
+               dict(pkg="./redis-shake", harness=["run"], test="^TestVerif_C05D$", shards=16, gomaxprocs=2, budget=dict(quick=60, thorough=600))],
     ),
 }
